@@ -1109,10 +1109,18 @@ func (s *SecureChannel) sendAsyncWithTimeout(
 	authToken *ua.NodeID,
 	respRequired bool,
 	timeout time.Duration,
-) (<-chan *MessageBody, error) {
+) (_ <-chan *MessageBody, err error) {
 
 	instance.Lock()
 	defer instance.Unlock()
+
+	// do not leave a handler behind for a request which was not sent
+	registered := false
+	defer func() {
+		if err != nil && registered {
+			s.popHandler(reqID)
+		}
+	}()
 
 	m, err := instance.newRequestMessage(req, reqID, authToken, timeout)
 	if err != nil {
@@ -1144,6 +1152,7 @@ func (s *SecureChannel) sendAsyncWithTimeout(
 
 		s.handlers[reqID] = resp
 		s.handlersMu.Unlock()
+		registered = true
 	}
 
 	for i, chunk := range chunks {
